@@ -135,11 +135,46 @@ def _ob_create_params(I):
     I.check('existing_pool_untouched', get_pool(I, 'o.taken').get('asset_denoms').e == ['uX', 'uY'])
 
 
+def _replay_create_params(label, m):
+    """native: the same CreatePool message (exact fee attached, no token-factory fee); accept/reject compared with the validity rule"""
+    ch = m['_choices']
+    kind, n = ch.get('type', 0), 2 + ch.get('n', 0)
+    dup = ch.get('dup', 0) == 1
+    declen = [n, n + 1][ch.get('declen', 0)]
+    denoms = ['uA', 'uB', 'uC', 'uD', 'uE'][:n]
+    if dup:
+        denoms[-1] = denoms[0]
+    ik = ch.get('ident', 0)
+    ident = [None, 'mine', 'taken', 'bad id!'][ik]
+    p, sfee, bu, amp = m['protocol_fee'], m['swap_fee'], m['burn_fee'], m.get('amp', 0)
+    steps = [{'op': 'set_pool', 'pool': pool_json('o.taken', ['uX', 'uY'], [6, 6], [0, 0], 'constant_product', (0, 0, 0, []))}]
+    steps += _mints([('creator', [('uusd', 1000)])])
+    steps.append({'op': 'execute', 'contract': 'pool_manager', 'sender': 'creator', 'funds': [coin_j('uusd', 1000)],
+                  'msg': {'create_pool': {'asset_denoms': denoms, 'asset_decimals': [6] * declen,
+                                          'pool_fees': {'protocol_fee': {'share': dec_j(p)}, 'swap_fee': {'share': dec_j(sfee)}, 'burn_fee': {'share': dec_j(bu)}, 'extra_fees': []},
+                                          'pool_type': 'constant_product' if kind == 0 else {'stable_swap': {'amp': amp}}, 'pool_identifier': ident}}})
+    sc = {'setup': {'pool': {'pool_creation_fee': {'denom': 'uusd', 'amount': '1000'}}}, 'tf_fees': [], 'steps': steps}
+    fees_ok = p < E18 and sfee < E18 and bu < E18 and p + sfee + bu <= 2 * 10 ** 17
+    count_ok = (n == 2) if kind == 0 else (2 <= n <= 4)
+    valid = fees_ok and count_ok and (not dup) and declen == n and ik in (0, 1) and (kind == 0 or amp > 0)
+
+    def judge(out):
+        tx = out['results'][len(steps) - 1]
+        what = '%s pool with assets %s, %d decimals, fees %s/%s/%s, amp %s, identifier %r' % (
+            'constant-product' if kind == 0 else 'stableswap', denoms, declen, dec_j(p), dec_j(sfee), dec_j(bu), amp, ident)
+        if 'ok' in tx and not valid:
+            return True, 'invalid pool accepted: ' + what
+        if 'ok' not in tx and valid:
+            return True, 'valid pool refused: %s: %s' % (what, json.dumps(tx)[-200:])
+        return False, 'native run agrees'
+    return sc, judge
+
+
 obligation('C16', 'S2.create_pool_parameters', entries=['execute', 'create_pool', 'PoolFee::is_valid', 'validate_pool_identifier'], kind='S',
            statement='a pool is created iff: 2 assets (constant product) or 2-4 distinct assets with amp > 0 (stableswap), decimals list of the same length, '
                      'each fee < 100% and total <= 20%, well-formed identifier not already in use; explicit ids get the o. prefix, generated ones p.<counter>',
            bounds='asset count 2..5, duplicate or not, decimals length n or n+1, fee shares symbolic, amp symbolic, identifier none/fresh/taken/malformed',
-           covers=['ok', 'rejected'])(_ob_create_params)
+           covers=['ok', 'rejected'], replay=_replay_create_params)(_ob_create_params)
 
 
 def immutable_view(p):
